@@ -63,16 +63,65 @@ fn flat_text_identity(tape: &[u32], st: &mut Stats) -> CaseResult {
             }
         }
     }
-    // default float and value parsers
-    let ft = ["  x+ 1", "sin ( z) +  {another var} ", " 2 * x", "(x) ", "1.0e", "atan2( x , 2)"][t.choose(6)];
+    // default float and value parsers; texts whose JSON form needs escapes (quote, backslash, tab
+    // inside braces) take the owned-string path of the deserialiser, plain ones the borrowed path;
+    // reader and Value input always take the owned path
+    const FT: [&str; 12] = [
+        "  x+ 1", "sin ( z) +  {another var} ", " 2 * x", "(x) ", "1.0e", "atan2( x , 2)", "{a\"b} * 2 - x", "{back\\slash}+{tab\there}/2",
+        "{\u{1F600}}^2 + \u{3b1}", "-{\"}+ +{\"}", "x", " 7 ",
+    ];
+    let ft = FT[t.choose(FT.len())];
+    st.class_if(ft.contains('"') || ft.contains('\\') || ft.contains('\t'), "text needing JSON escapes");
     if let Ok(e) = exmex::FlatEx::<f64>::parse(ft) {
         if e.unparse() != ft {
             return Err(fail("C12/identity/f64", format!("FlatEx::<f64>::parse(`{ft}`) prints `{}`", e.unparse()), json!({"text": ft})));
         }
         let js = serde_json::to_string(&e).unwrap();
-        match serde_json::from_str::<exmex::FlatEx<f64>>(&js) {
-            Ok(g) if g.unparse() == ft => {}
-            other => return Err(fail("C12/identity/f64-serde", format!("serde round trip of `{ft}` gives {:?}", other.map(|g| g.unparse().to_string())), json!({"text": ft}))),
+        if serde_json::from_str::<String>(&js).ok().as_deref() != Some(ft) {
+            return Err(fail("C12/identity/f64-serde", format!("`{ft}` is serialised as {js}, which is not the JSON string of its text"), json!({"text": ft})));
+        }
+        let vals: Vec<f64> = (0..e.var_names().len()).map(|i| 0.75 + i as f64).collect();
+        let v0 = e.eval(&vals).map_err(|x| x.msg().to_string());
+        let routes: [(&str, Result<exmex::FlatEx<f64>, String>); 3] = [
+            ("from_str", serde_json::from_str::<exmex::FlatEx<f64>>(&js).map_err(|x| x.to_string())),
+            ("from_reader", serde_json::from_reader::<_, exmex::FlatEx<f64>>(js.as_bytes()).map_err(|x| x.to_string())),
+            ("from_value", serde_json::from_value::<exmex::FlatEx<f64>>(serde_json::Value::String(ft.to_string())).map_err(|x| x.to_string())),
+        ];
+        for (what, r) in routes {
+            match r {
+                Ok(g) if g.unparse() == ft && g.var_names() == e.var_names() && g.eval(&vals).map_err(|x| x.msg().to_string()) == v0 => {}
+                other => {
+                    return Err(fail(
+                        "C12/identity/f64-serde",
+                        format!("serde round trip ({what}) of `{ft}` gives {:?}", other.map(|g| (g.unparse().to_string(), g.var_names().to_vec()))),
+                        json!({"text": ft}),
+                    ))
+                }
+            }
+        }
+    }
+    const VT: [&str; 5] = ["x if y > 1 else [1, 2,3]", " true && {a\"b} || false", "to_int( x ) % 3", "[1.5,2].0 + {t\tt}", "fact 4 + x"];
+    let vt = VT[t.choose(VT.len())];
+    if let Ok(e) = exmex::parse_val::<i32, f64>(vt) {
+        if e.unparse() != vt {
+            return Err(fail("C12/identity/val", format!("parse_val(`{vt}`) prints `{}`", e.unparse()), json!({"text": vt})));
+        }
+        let js = serde_json::to_string(&e).unwrap();
+        let routes: [(&str, Result<exmex::FlatExVal<i32, f64>, String>); 2] = [
+            ("from_str", serde_json::from_str::<exmex::FlatExVal<i32, f64>>(&js).map_err(|x| x.to_string())),
+            ("from_reader", serde_json::from_reader::<_, exmex::FlatExVal<i32, f64>>(js.as_bytes()).map_err(|x| x.to_string())),
+        ];
+        for (what, r) in routes {
+            match r {
+                Ok(g) if g.unparse() == vt && g.var_names() == e.var_names() => {}
+                other => {
+                    return Err(fail(
+                        "C12/identity/val-serde",
+                        format!("serde round trip ({what}) of `{vt}` gives {:?}", other.map(|g| g.unparse().to_string())),
+                        json!({"text": vt}),
+                    ))
+                }
+            }
         }
     }
     Ok(())
